@@ -13,7 +13,9 @@ import (
 	"io"
 	"log/slog"
 	"net"
+	"net/http"
 	"os"
+	"os/exec"
 	"strings"
 	"testing"
 	"time"
@@ -67,11 +69,213 @@ func TestMain(m *testing.M) {
 	harness.Run(&harness.Prop{
 		ID:             "C19",
 		Rule:           "the shipped handleMessages/handleClientMessages/handleServerMessages/keepCircularQueueUpdated of the proxy (in-package harness, package globals set as start() sets them) over two harness-owned net.Conn values whose Read is a scheduling and chunking choice point and whose Write records; a status thread calls ReportFeed.Status() twice at scheduler-chosen moments. Client streams: frame whose payload reads '<b>', HTML-looking junk before a frame, CRC-valid MSM frames with short or inconsistent content before a frame, two frames, plain junk; server streams: text and binary. plus scenarios in which one peer stops reading (its Write blocks) while the other direction has traffic, and bursts of 2047, 2048, 2049 and 4096 bytes (the relay's read buffer is 2048 bytes) in both directions under the default schedule, and two sessions over the same handler, queue and report feed, one after the other and at the same time (first session ending at a frame boundary, inside a frame, or in junk). All chunkings and interleavings in the unbounded pass where it completes, otherwise deviation bound 2. Oracle: at quiescence upstream sink == client bytes and client sink == server bytes; no panic; every report's message list is (after un-escaping) the display of a prefix of the sequential framing of the client stream; the number of '<' and '>' in every report equals that of the fixed template. Non-trivial = distinct schedule trace",
-		Assumptions:    []string{"TCP is replaced by in-memory net.Conn values: Read returns what was sent in explorer-chosen chunks, a server Read with nothing left blocks until the connection is closed, the client reports EOF only after the server's bytes have reached it; the kernel's segmentation and timing are outside the check", "the status HTTP server (go-tools dependency) is not started; ReportFeed.Status is called directly", "the daily RTCM log is a real dailylogger.Writer over a scratch directory; logging is disabled in most scenarios and enabled, or switched by the status thread through ReportFeed.SetLogLevel while traffic flows, in twelve of them (file handling itself belongs to the dependency)", "'HTML-escaped' is judged on '<' and '>' only, which is what Sanitise defines"},
+		Assumptions:    []string{"TCP is replaced by in-memory net.Conn values: Read returns what was sent in explorer-chosen chunks, a server Read with nothing left blocks until the connection is closed, the client reports EOF only after the server's bytes have reached it; the kernel's segmentation and timing are outside the check", "in the scheduler-driven scenarios the status HTTP server (go-tools dependency) is not started and ReportFeed.Status is called directly; the loopback conformance leg runs the shipped binary with its HTTP server over real TCP", "the daily RTCM log is a real dailylogger.Writer over a scratch directory; logging is disabled in most scenarios and enabled, or switched by the status thread through ReportFeed.SetLogLevel while traffic flows, in twelve of them (file handling itself belongs to the dependency)", "'HTML-escaped' is judged on '<' and '>' only, which is what Sanitise defines"},
 		Scenarios:      scenarios,
+		Post:           loopbackSessions,
 		QuickBudget:    60 * time.Second,
 		ThoroughBudget: 10 * time.Minute,
 	})
+}
+
+// loopbackSessions is the conformance leg over real TCP: the shipped proxy
+// binary (main(), flags, JSON config, status HTTP server) between a client and
+// an upstream server on the loopback interface.  Each case is one session (or
+// two in a row); both directions must be relayed byte for byte and the status
+// page must contain no more angle brackets than its template.
+func loopbackSessions(r *harness.EvRun) {
+	bin := os.Getenv("MC_REAL_BIN_proxy")
+	if bin == "" {
+		r.Extra["real_binary_pass"] = "not run (MC_REAL_BIN_proxy not set)"
+		return
+	}
+	f := ref.Frame([]byte{0x41})
+	htmlF := ref.TypedFrame(1005, 6, func(i int) byte { return []byte{0, 0, '<', 'b', '>', '!'}[i] })
+	var big []byte
+	for i := 0; len(big) < 70001; i++ {
+		big = append(big, ref.TypedFrame(1001+i%90, 19+i%5, func(k int) byte { return byte(i + 3*k) })...)
+		if i%11 == 0 {
+			big = append(big, []byte("<script>x</script>\r\n")...)
+		}
+	}
+	type sess struct{ c, s []byte }
+	cases := []struct {
+		name     string
+		quiet    bool
+		sessions []sess
+	}{
+		{"one session, frames and text", false, []sess{{append(append([]byte{}, f...), htmlF...), []byte("ICY 200 OK\r\n")}}},
+		{"one session, quiet", true, []sess{{append(append([]byte("GET /<mount> HTTP/1.0\r\n\r\n"), htmlF...), 0xD3), []byte{0x00, 0xD3, '<', 0xFF}}}},
+		{"70001 bytes each way", false, []sess{{big, big[:50000]}}},
+		{"two sessions, the first ends inside a frame", false, []sess{{append(append([]byte{}, f...), htmlF[:5]...), []byte("A")}, {htmlF, []byte("B<")}}},
+	}
+	ran := 0
+	for _, c := range cases {
+		kind, detail := "", ""
+		for attempt := 0; attempt < 3; attempt++ {
+			var sessions [][2][]byte
+			for _, s := range c.sessions {
+				sessions = append(sessions, [2][]byte{s.c, s.s})
+			}
+			kind, detail = runLoopback(bin, c.quiet, sessions)
+			if kind == "" || kind == "skip" {
+				break
+			}
+		}
+		if kind == "skip" {
+			r.Extra["real_binary_pass"] = "loopback sessions not possible here: " + detail
+			return
+		}
+		ran++
+		r.Count(1, 0, 1, 1)
+		if kind != "" {
+			r.Violate(harness.EvViolation{Fingerprint: "C19 real-binary " + kind, What: "TCP loopback session through the shipped proxy, case '" + c.name + "': " + kind + ": " + detail + " (failed three times in a row)",
+				Case: map[string]interface{}{"case": c.name}, ReplayKind: "real-binary"})
+		}
+	}
+	r.Extra["real_binary_pass"] = fmt.Sprintf("%d TCP loopback cases through the shipped proxy binary (main(), config file, status HTTP server) - conformance leg, not part of the exhaustive claim", ran)
+}
+
+func freePort() int {
+	l, err := net.Listen("tcp", "127.0.0.1:0")
+	if err != nil {
+		return 0
+	}
+	defer l.Close()
+	return l.Addr().(*net.TCPAddr).Port
+}
+
+// runLoopback runs the sessions one after the other through one proxy process.
+func runLoopback(bin string, quiet bool, sessions [][2][]byte) (kind, detail string) {
+	dir, err := os.MkdirTemp("", "c19tcp")
+	if err != nil {
+		return "skip", err.Error()
+	}
+	defer os.RemoveAll(dir)
+	pProxy, pUp, pCtl := freePort(), freePort(), freePort()
+	if pProxy == 0 || pUp == 0 || pCtl == 0 {
+		return "skip", "no loopback ports"
+	}
+	cfg := fmt.Sprintf(`{"remote_host":"127.0.0.1:%d","proxy_host":"127.0.0.1","proxy_port":%d,"control_host":"127.0.0.1","control_port":%d,"record_messages":true,"message_log_directory":"%s/log"}`, pUp, pProxy, pCtl, dir)
+	os.WriteFile(dir+"/config.json", []byte(cfg), 0o644)
+	up, err := net.Listen("tcp", fmt.Sprintf("127.0.0.1:%d", pUp))
+	if err != nil {
+		return "skip", err.Error()
+	}
+	defer up.Close()
+	type upRes struct{ got []byte }
+	upCh := make(chan upRes, len(sessions))
+	go func() {
+		for _, s := range sessions {
+			c, err := up.Accept()
+			if err != nil {
+				return
+			}
+			c.Write(s[1])
+			var got []byte
+			buf := make([]byte, 4096)
+			for {
+				c.SetReadDeadline(time.Now().Add(20 * time.Second))
+				n, err := c.Read(buf)
+				got = append(got, buf[:n]...)
+				if err != nil {
+					break
+				}
+			}
+			c.Close()
+			upCh <- upRes{got}
+		}
+	}()
+	args := []string{"-c", dir + "/config.json"}
+	if quiet {
+		args = append(args, "-q")
+	}
+	cmd := exec.Command(bin, args...)
+	cmd.Dir = dir
+	cmd.Env = append(os.Environ(), "GOGC=1")
+	if err := cmd.Start(); err != nil {
+		return "skip", err.Error()
+	}
+	defer func() { cmd.Process.Kill(); cmd.Wait() }()
+	// the status page of the idle proxy: its angle brackets are the page's own
+	idleAngles := -1
+	for try := 0; try < 100 && idleAngles < 0; try++ {
+		if resp, err := http.Get(fmt.Sprintf("http://127.0.0.1:%d/status/report", pCtl)); err == nil {
+			body, _ := io.ReadAll(resp.Body)
+			resp.Body.Close()
+			if resp.StatusCode == 200 {
+				idleAngles = strings.Count(string(body), "<") + strings.Count(string(body), ">")
+			}
+		}
+		if idleAngles < 0 {
+			time.Sleep(50 * time.Millisecond)
+		}
+	}
+	for i, s := range sessions {
+		var cl net.Conn
+		for try := 0; try < 100; try++ {
+			cl, err = net.Dial("tcp", fmt.Sprintf("127.0.0.1:%d", pProxy))
+			if err == nil {
+				break
+			}
+			time.Sleep(50 * time.Millisecond)
+		}
+		if err != nil {
+			return "proxy-does-not-accept-connections", err.Error()
+		}
+		done := make(chan []byte, 1)
+		go func() {
+			var got []byte
+			buf := make([]byte, 4096)
+			for len(got) < len(s[1]) {
+				cl.SetReadDeadline(time.Now().Add(20 * time.Second))
+				n, err := cl.Read(buf)
+				got = append(got, buf[:n]...)
+				if err != nil {
+					break
+				}
+			}
+			done <- got
+		}()
+		for off := 0; off < len(s[0]); {
+			n := 1000 + 37*off%1500
+			if off+n > len(s[0]) {
+				n = len(s[0]) - off
+			}
+			if _, err := cl.Write(s[0][off : off+n]); err != nil {
+				break
+			}
+			off += n
+		}
+		fromServer := <-done
+		// the operator looks at the status page while the session is open
+		if resp, err := http.Get(fmt.Sprintf("http://127.0.0.1:%d/status/report", pCtl)); err == nil {
+			body, _ := io.ReadAll(resp.Body)
+			resp.Body.Close()
+			if n := strings.Count(string(body), "<") + strings.Count(string(body), ">"); resp.StatusCode == 200 && idleAngles >= 0 && n != idleAngles {
+				cl.Close()
+				return "report-unescaped", fmt.Sprintf("status page has %d angle brackets with traffic, %d when idle", n, idleAngles)
+			}
+		}
+		// half-close: the client has sent everything
+		if tc, ok := cl.(*net.TCPConn); ok {
+			tc.CloseWrite()
+		}
+		var res upRes
+		select {
+		case res = <-upCh:
+		case <-time.After(30 * time.Second):
+			cl.Close()
+			return "upstream-did-not-receive-exactly-the-client-bytes", fmt.Sprintf("session %d: upstream still waiting after 30 s", i+1)
+		}
+		cl.Close()
+		if !bytes.Equal(res.got, s[0]) {
+			return "upstream-did-not-receive-exactly-the-client-bytes", fmt.Sprintf("session %d: %d bytes arrived upstream, the client sent %d", i+1, len(res.got), len(s[0]))
+		}
+		if !bytes.Equal(fromServer, s[1]) {
+			return "client-did-not-receive-exactly-the-server-bytes", fmt.Sprintf("session %d: %d bytes arrived at the client, the server sent %d", i+1, len(fromServer), len(s[1]))
+		}
+	}
+	return "", ""
 }
 
 var errClosed = errors.New("use of closed network connection")
